@@ -1035,7 +1035,9 @@ def reopenNode (root : Bool) (n : Inode) : Inode :=
 /-- the overlay of a `DirFS` opened over a directory whose content is `fs`: same names, same nodes, metadata as
 the callback sets it (handles opened through the first value stay what they were: `*os.File`s of the host) -/
 def reopenFS (fs : FS) : FS :=
-  { fs with nodes := fs.nodes.mapIdx fun i n => reopenNode (i == 0) n }
+  { fs with nodes := match fs.nodes with
+                     | [] => []
+                     | r :: rest => reopenNode true r :: rest.map (reopenNode false) }
 
 /-- how the constructor names the root of its walk -/
 inductive RootWalk
